@@ -180,6 +180,19 @@ def check_python(report):
     r.instance("routing parameter order")
     r.check("sorted(" not in src and "reversed(" not in src and "set(" not in src, p, rr.node.lineno, "try_parse_routing_rule",
             "routing parameters must keep their declared order (last one wins)")
+    # C06.4m (seed C06e): one RoutingParameter per declared parameter, duplicates included - "last one wins" is decided at call time by
+    # which templates match, so a verbatim re-statement [A, B, A] is meaningful and a keep-first de-duplication changes the header.
+    for n in ast.walk(rr.node):
+        dedupe = isinstance(n, ast.Call) and isinstance(n.func, ast.Attribute) and n.func.attr == "fromkeys"
+        filt = isinstance(n, (ast.ListComp, ast.GeneratorExp)) and any(g.ifs for g in n.generators) and "RoutingParameter(" in ast.unparse(n)
+        seen_loop = isinstance(n, ast.If) and isinstance(n.test, ast.Compare) and any(isinstance(o, (ast.In, ast.NotIn)) for o in n.test.ops) \
+            and any(isinstance(b, ast.Continue) for b in n.body)
+        if dedupe or filt or seen_loop:
+            r.instance("routing parameter multiplicity")
+            r.violation(p, n.lineno, f"try_parse_routing_rule: {ast.unparse(n)[:100]}",
+                        "declared routing parameters are dropped (de-duplicated or filtered) before the rule is built; every declared "
+                        "parameter, repeated ones too, takes part in last-match-wins")
+    r.instance("routing parameter multiplicity: no de-duplication / filtering construct")
 
 
 def check_rest(report, lib: Lib):
